@@ -70,7 +70,7 @@ PROPS["C19"] = {
     "level": "model_checking",
     "kani": [{"name": "k_next_version_rule", "thorough_only": True}],
     "harnesses": [
-        {"name": "c19_seq", "params": {"quick": {"writes": 3}, "thorough": {"writes": 5}}, "covers": ["newer.stale-write-seen"]},
+        {"name": "c19_seq", "params": {"quick": {"writes": 3}, "thorough": {"writes": 5}}, "covers": ["newer.stale-write-seen", "newer.incoming-write-lost"]},
         {"name": "c19_race2", "covers": ["newer.race-a-last", "newer.race-b-last"]},
     ],
     "bounds": {"quick": "3 consecutive writes (plain or versioned with any version in [0,1000)) to one key of a newer-strategy database with op ids from a symbolic non-decreasing clock (ties allowed); 2 concurrent set-safe writers (any versions in [-1, cur+1]) under all lock-level interleavings",
